@@ -50,6 +50,8 @@ func init() {
 			{ID: "R11x", Floor: 1, Doc: "the payload size StorageCar.Finalize hands to store.Finalize is read after the lock was taken", Run: ruleR11x},
 			{ID: "R11y", Floor: 1, Doc: "multiWidthIndex.Load builds one bucket per digest width: the groups it ranges over are keyed by an integer (the width), so no two groups address the same bucket", Run: ruleR11y},
 			{ID: "R11z", Floor: 1, Doc: "the insertion index refuses no record for the length of its digest: Load tests the decoded digest for nil only, so the empty identity CID loads like everywhere else", Run: ruleR11z},
+			{ID: "R11C", Floor: 2, Doc: "records with equal digests do not evict each other when an index is regenerated: InsertNoReplace only (= R03f)", Run: ruleR03f},
+			{ID: "R11D", Floor: 1, Doc: "the index of a wrap is where the header says: the payload size is the seek to the end (= R10c)", Run: ruleR10c},
 			{ID: "R11B", Floor: 1, Doc: "a compact bucket built in memory is exactly width x len bytes (= R03x)", Run: ruleR03x},
 			{ID: "R11q", Floor: 1, Doc: "a decoded bucket has exactly as many records as the bytes read for it hold (= R09f)", Run: ruleR09f},
 		},
@@ -546,8 +548,8 @@ func ruleR11c(c *Ctx, r *Report) {
 	{
 		key := "codec-prefix@" + fnKey(wt)
 		bad := "the codec prefix is not varint.PutUvarint(buf, uint64(idx.Codec())) written before Marshal"
-		for _, pc := range callsToFunc(wt, pkgVarint, "", "PutUvarint") {
-			cc, _ := callOf(canon(pc.Common().Args[1]))
+		for _, x := range uvarintEncoded(wt, false) {
+			cc, _ := callOf(canon(x))
 			if cc != nil && cc.Common().IsInvoke() && cc.Common().Method.Name() == "Codec" && canon(cc.Common().Value) == ssa.Value(wt.Params[0]) {
 				bad = ""
 			}
@@ -674,8 +676,14 @@ func ruleR11d(c *Ctx, r *Report) {
 				sz := c.Pkgs[pkgIndex].TypesSizes.Sizeof(mi.X.Type())
 				wantK += sz
 			case f != nil && (f.Name() == "Marshal" || f.Name() == "Write") && f.Pkg() != nil:
-				if ex := extractOf(ci, 0); ex != nil {
+				if ex := extractOf(ci, 0); ex != nil && valueUsed(ex) {
 					wantAdds[ex] = true
+				} else if f.Name() == "Write" && len(ci.Call.Args) > 0 {
+					// a fixed-size value encoded by hand and written with one Write whose count is
+					// not looked at: its size is part of the constant, as with binary.Write
+					if n, ok := appendedLen(ci.Call.Args[len(ci.Call.Args)-1], 0); ok {
+						wantK += n
+					}
 				}
 			}
 		})
@@ -718,8 +726,8 @@ func ruleR11d(c *Ctx, r *Report) {
 					return
 				}
 				cnt := extractOf(ci, 0)
-				if cnt == nil {
-					return
+				if cnt == nil || !valueUsed(cnt) {
+					return // a fixed-size write whose size is in the constant (as with binary.Write)
 				}
 				for _, ret := range returnsOf(fn) {
 					if !instrReaches(in, ret) {
@@ -1149,4 +1157,27 @@ func enclosingFuncDecl(f *ast.File, pos token.Pos) *ast.FuncDecl {
 		}
 	}
 	return nil
+}
+
+// uvarintEncoded: the values fn encodes as an unsigned varint — varint.PutUvarint(buf, x),
+// varint.ToUvarint(x); with alsoStd, encoding/binary's PutUvarint and AppendUvarint as well (go-varint
+// and encoding/binary write the same bytes; they differ in what they accept when reading).
+func uvarintEncoded(fn *ssa.Function, alsoStd bool) []ssa.Value {
+	var out []ssa.Value
+	for _, g := range withAnon(fn) {
+		eachInstr(g, func(in ssa.Instruction) {
+			ci, ok := in.(*ssa.Call)
+			if !ok {
+				return
+			}
+			f := calleeFunc(ci.Common())
+			switch {
+			case funcIs(f, pkgVarint, "", "PutUvarint"), alsoStd && funcIs(f, "encoding/binary", "", "PutUvarint"), alsoStd && funcIs(f, "encoding/binary", "", "AppendUvarint"):
+				out = append(out, ci.Call.Args[1])
+			case funcIs(f, pkgVarint, "", "ToUvarint"):
+				out = append(out, ci.Call.Args[0])
+			}
+		})
+	}
+	return out
 }
